@@ -67,6 +67,38 @@ def gen_prune(rng, order):
     return vals
 
 
+def gen_illegal_prune(rng, order):
+    """An option vector ParsePruning must refuse (or an unusual spelling it accepts): returns list of str."""
+    kind = rng.choice(["dec-last", "dec-last", "dec-any", "too-many", "garbage", "plus", "minus"])
+    if kind in ("dec-last", "dec-any"):
+        k = rng.randint(2, max(2, order))
+        vals = sorted(rng.choice([0, 1, 1, 2, 2, 3, 5]) for _ in range(k))
+        j = k - 1 if kind == "dec-last" else rng.randint(1, k - 1)
+        if vals[j - 1] == 0:
+            for i in range(j - 1, k):
+                vals[i] += 1 + (i >= j)
+            vals = sorted(vals)
+        vals[j] = vals[j - 1] - 1
+        if kind == "dec-last":          # the only decrease is the last pair
+            for i in range(1, j):
+                vals[i] = max(vals[i], vals[i - 1])
+        return [str(v) for v in vals]
+    if kind == "too-many":
+        return [str(v) for v in sorted(rng.choice([0, 0, 1, 2]) for _ in range(order + rng.randint(1, 2)))]
+    if kind == "garbage":
+        vals = [str(v) for v in sorted(rng.choice([0, 1, 2]) for _ in range(rng.randint(1, order)))]
+        vals[rng.randrange(len(vals))] = rng.choice(["abc", "1.5", "0x1", "99999999999999999999", "18446744073709551616", "1e3", "2,", "+-1"])
+        return vals
+    if kind == "plus":
+        vals = [str(v) for v in sorted(rng.choice([0, 1, 2]) for _ in range(rng.randint(1, order)))]
+        i = rng.randrange(len(vals))
+        vals[i] = rng.choice(["+", "0", "00"]) + vals[i]
+        return vals
+    # lexical_cast<uint64_t>("-1") = UINT64_MAX (prunes everything but the specials); only as the single value
+    # directly after --prune: later tokens starting with '-' are taken for options by boost::program_options
+    return ["-1"] if rng.random() < 0.5 else ["18446744073709551615"]
+
+
 def gen_case(rng, tier="quick", small=False, big=False):
     """One lmplz case: dict(corpus=bytes, order, prune, limit (bytes or None), interp, fallback, renumber,
     skip, label)."""
@@ -99,6 +131,8 @@ def gen_case(rng, tier="quick", small=False, big=False):
     if big:
         order = rng.choice([3, 5])
     prune = gen_prune(rng, order) if rng.random() < 0.45 else None
+    if order >= 2 and not big and rng.random() < 0.12:
+        prune = gen_illegal_prune(rng, order)
     limit = None
     if rng.random() < 0.2:
         allowed = [w for w in words if rng.random() < 0.7] + [b"neverseen"]
